@@ -4,7 +4,10 @@ import json, os
 HERE = os.path.dirname(os.path.abspath(__file__))
 NOTE = ("Trusted base: rustc nightly's MIR construction, callee resolution and const evaluation; the /verif/driver serialiser; "
         "the Python rule engine in /verif/sa; reviewed exception tables inside the rules. The check decides the structural clauses "
-        "named in level_claimed.text, not the full input/output behaviour of the property.")
+        "named in level_claimed.text, not the full input/output behaviour of the property. Every check also runs, on the functions in its "
+        "scope, SA-SUMMARY / SA-PATHSUM (thin bodies keep their reviewed normal form / (conditions -> result) table) and, in the "
+        "configurations with debug assertions on, SA-BELIEF (every debug_assert!/invariant! site is in the reviewed population or "
+        "discharged by a run-time check, a dominating live branch, an assert! or a callee's belief).")
 CLAIMS = {
  "C01": ("translation-validation style step rules on MIR: forward value numbering of the loop-free rolling-hash step, exhaustive check of the rustc-evaluated FNV table, per-level store table with exact guards and dominance orderings, digest-assembly rows, sibling/engine correspondence",
          "Decides that each STEP of the generator (rolling hash update, 6-bit FNV step, trigger test, per-level piece/fork/elimination effects, initial state, block-size choice borders, digest assembly incl. the unfinished piece) is the step ssdeep 2.14.1 defines, in all update forms and both engines. That the iterated relation equals libfuzzy's where the two differ by design (roll_mask shortcut, fork limit, last-piece hash) is NOT decided - no byte-exactness claim over inputs.", "§13 C01"),
@@ -40,7 +43,7 @@ CLAIMS = {
          "Decides: far->0/false; candidate test and scorer use the same pairs per relation at equal effective block sizes; score 0 exactly on the no-common-substring arm; equality->100; index windows carry log / log+1; window constants; short inputs return false without scanning. Raw score >= 1, injectivity and symmetry as values are NOT decided. Also: window iterator steps as formulas ((w<<6|sym)&MASK42; index = w | log<<42), trait-override census on the iterators, substring-scan exits, comparison twins.", "§3.8, §3.1, §4 C10"),
  "C03": ("canonical-MIR sibling comparison of the three update forms + liveness across the loop back edge + size-accounting, purity and delegation rules",
          "Decides the structural half: identical per-byte regions in all three forms (release, debug, unsafe), every yielded byte enters the step once, no per-call state outside *self (iterator and mirrored pointer caches only), accounting once/per-item/once, finalisers pure (&self, no interior mutability, no writes in their closure), Clone derived, += forms forward, hash_buf and the reader loop feed exactly the delivered bytes. That up-front vs per-byte accounting cannot change an elimination decision is NOT decided. Also: engine correspondence for the pointer engine, hash_buf's only Ok is finalize of the fed generator, declared-size effects.", "§3.13, §4 C03"),
- "C14": ("effect-level configuration diff of all MIR bodies over 12 build configurations + reviewed divergence table + engine correspondence (index vs pointer loop) + invariant!/run-time-check pairing + twin delegation",
+ "C14": ("effect-level configuration diff of all MIR bodies over 12 build configurations + reviewed divergence table + engine correspondence (index vs pointer loop) + invariant!/run-time-check pairing + debug-only belief census + twin delegation",
          "Decides: debug assertions on/off change no body; each feature changes only reviewed bodies, each covered by its own rule (engine correspondence and mirror rules, FNV table == arithmetic step on all 64x64, strict parser take(N)/look-ahead, ASCII-only output for the UTF-8 shortcuts); 24 *_unchecked twins compute the same internal call as their safe forms; all 80 invariant! assumptions are subsumed by a run-time check of the safe build or a reviewed structural argument. Extensional equality on inputs is NOT decided. Also: assertion purity (no effect hidden in a debug-only assertion region), checked-vs-unchecked contracts (asserts of a checked form = beliefs of the wrapped body), parser tables in the strict configuration.", "§3.11, §4 C14"),
 }
 NA = {
